@@ -38,6 +38,7 @@ type GenOpts struct {
 	Actions        []string // nil = all
 	FixedConfig    bool
 	Overhead       bool // some pods carry spec.overhead (RuntimeClass)
+	BestEffort     bool // some cpu-only pods have no requests at all (BestEffort QoS): only a pod slot is needed
 	DRA            bool // some worlds have DRA devices and resource claims
 	SchedCrash     bool // the scheduler process may crash in the middle of a cycle and restart
 	MidEvict       bool // a victim may finish or be deleted between the snapshot and its eviction
@@ -158,6 +159,9 @@ func genPodShape(t *rapid.T, o GenOpts, hasMIGNode bool) PodSpec {
 	case "whole":
 		p.GPUs = int64(pick(t, "ngpu", 1, 1, 1, 2, 4))
 	case "cpu":
+		if o.BestEffort && chance(t, "besteffort", 40) {
+			p.CPUm, p.MemMi = 0, 0
+		}
 	case "frac":
 		if !o.Fractions {
 			p.GPUs = 1
